@@ -600,11 +600,11 @@ def hW0 : Loop.World :=
 def hPre : List Loop.Op := [.cycle { assign := [7] } [] false]
 def hHist : List Loop.Op :=
   [.scrape 0 7 (some (10, 12)), .scrape 1 7 (some (10, 12)),
-   .cycle {} [⟨true, false, false, false, false⟩, {}] false,
+   .cycle {} [⟨true, false, false, false, false, false⟩, {}] false,
    .restart 0, .restart 1,
-   .cycle {} [{}, ⟨false, false, false, false, true⟩] true,
+   .cycle {} [{}, ⟨false, false, false, false, true, false⟩] true,
    .scrape 0 7 none, .scrape 1 7 none,
-   .cycle {} [⟨false, true, false, false, false⟩, ⟨false, false, true, false, false⟩] false,
+   .cycle {} [⟨false, true, false, false, false, false⟩, ⟨false, false, true, false, false, false⟩] false,
    .discover [7, 8] [(8, ⟨.good, 5, 5, .normal, 0⟩)], .cycle { assign := [7, 8] } [] false]
 
 example : Loop.Held (Loop.run (fun x r => x * r / 10) hEnv (Loop.run (fun x r => x * r / 10) hEnv hW0 hPre) hHist) 7 := by
